@@ -155,6 +155,10 @@ func runStreamProp(c *Ctx, id string) {
 	}
 	if id == "C04" {
 		runC04File(c)
+		runC04ReloadWindow(c)
+	}
+	if id == "C05" {
+		runC04File(c) // the file backend rewrites the whole file: a save keeps the checkpoints it does not touch
 	}
 	if id == "C16" {
 		runC16Gauges(c)
